@@ -342,6 +342,45 @@ def histories(alphabet, maxlen):
     return out
 
 
+def realtime_blocking_target(hold):
+    import threading
+    import time
+    from nxslib.thread import ThreadCommon
+    state = {"in": 0, "max": 0, "calls": 0}
+    release = threading.Event()
+    lock = threading.Lock()
+
+    def target():
+        with lock:
+            state["in"] += 1
+            state["max"] = max(state["max"], state["in"])
+            state["calls"] += 1
+        release.wait(hold)
+        with lock:
+            state["in"] -= 1
+
+    t = ThreadCommon(target)
+    t.thread_start()
+    while state["calls"] == 0:
+        time.sleep(0.01)
+    t0 = time.time()
+    t.thread_stop()
+    dt = time.time() - t0
+    running_at_return = state["in"]
+    v = None
+    if running_at_return:
+        v = {"key": "rt-target-running-after-stop", "what": f"stop() returned after {dt:.1f} s while a target call (blocking {hold} s) was still running",
+             "expected": "stop waits for the running target call", "observed": f"{running_at_return} target call(s) in progress", "case": "real-time"}
+    else:
+        t.thread_start()
+        time.sleep(0.2)
+        if state["max"] > 1:
+            v = {"key": "rt-two-workers", "what": "two target calls ran concurrently after restart", "expected": "1", "observed": state["max"], "case": "real-time"}
+    release.set()
+    t.thread_stop()
+    return v
+
+
 class C13(Prop):
     id = "C13"
     lean_module = "NxsModel.Props.C13"
@@ -491,6 +530,17 @@ class C13(Prop):
         jobs = [("explore", cfg, h, (2, 2000)) for cfg in ("11", "00") for h in histories("SP", 3)]
         out += self.run_jobs(jobs)
         return out
+
+    def deep_search(self, rng):
+        """real threads, real time: a target call that is still running long after the stop request (a legal
+        blocking callback). stop() must not return while it runs; afterwards the worker must be dead and a
+        restart must not give two concurrent workers."""
+        return [v for v in [realtime_blocking_target(4.0)] if v]
+
+    def replay(self, obj):
+        if obj.get("key", "").startswith("rt-"):
+            return realtime_blocking_target(4.0)
+        return self.oracle(obj["case"])
 
     def extra_checks(self, rng, tier, ev):
         cov = ev["coverage"]
